@@ -1,9 +1,9 @@
 """Manifest metadata (tools/gen_manifest.py turns it into MANIFEST.json)."""
 HOOK_COMMITS = []
 ENGINES = [
-    dict(name='verus-extract', path='/verif/vlib', serves_properties=['C04', 'C05', 'C06', 'C08', 'C12', 'C14', 'C15'],
+    dict(name='verus-extract', path='/verif/vlib', serves_properties=['C04', 'C05', 'C06', 'C08', 'C12', 'C14', 'C15', 'C20'],
          kind_free_text='Verus 0.2026.09.13 on functions extracted mechanically from /repo on every run, contracts injected from /verif/units/<unit>/unit.rs'),
-    dict(name='kani-contracts', path='/verif/kani', serves_properties=['C01', 'C02', 'C03', 'C06', 'C15'],
+    dict(name='kani-contracts', path='/verif/kani', serves_properties=['C01', 'C02', 'C03', 'C06', 'C15', 'C20'],
          kind_free_text='Kani 0.68 function contracts (proof_for_contract) and loop-free full-domain harnesses on the real crates of /repo (path dependencies), CBMC 6.11'),
 ]
 NOTES = ('Contract-based deductive verification. exit 0 = all obligations discharged; exit 1 = VIOLATION; '
@@ -13,6 +13,12 @@ NOT_APPLICABLE = {
     'C13': 'bus state is BTreeMap+VecDeque behind Rc<RefCell> driven by std iterator closures: no Verus model, Kani measured >10 min for 2 outputs x 2 ops (DESIGN.md §7)',
 }
 CHECKS = {
+    'C20': dict(
+        engine='verus-extract', category='proof',
+        technique='Verus: size_hint contract against the closed-form chunk count, inductive lemma closed form == recurrence, Hann/Rectangle shapes over idealised reals; Kani: next() slice arithmetic for every usize triple',
+        text='Windower::size_hint (extracted) is verified to bracket count(L,b,h) = floor((L-b)/h)+1 (0 if L<b); lemma_count_closed_form proves by induction on L that the recurrence Windower::next implements (a chunk iff b <= L, then L-h frames) yields exactly that count for every L, b, h; Kani proves next() implements that recurrence for every usize (L, bin, hop). Hann::window is verified to compute 0.5(1-cos(2 pi p)) and lemmas show it lies in [0,1], is 0 at both ends, 1 at 0.5 and symmetric; Rectangle::window is the identity gain everywhere.',
+        note='Hann shape PROVED OVER EXACT REALS with assumed cosine facts (T4). The data path of a chunk (frames k*h+j scaled by the window) is covered only by the bounded thorough-tier Kani run (L <= 4). Phases i/(n-1) rely on the Phase contract (C17).',
+    ),
     'C08': dict(
         engine='verus-extract', category='proof',
         technique='Verus over idealised real arithmetic (float_as_real axioms): Converter::next loop invariant, Interpolator trait contract, position lemmas',
